@@ -40,6 +40,18 @@ class Ref:
         return "Ref(%s:%s)" % (self.e, self.cls)
 
 
+class ArrVal:
+    """Ghost mathematical sequence / map (a z3 array Int -> T) held in a ghost field or ghost local.
+    elem: element type string ('ref:<Class>' | 'real' | 'int' | 'bool')."""
+    __slots__ = ("arr", "elem")
+
+    def __init__(self, arr, elem):
+        self.arr, self.elem = arr, elem
+
+    def __repr__(self):
+        return "ArrVal(%s:%s)" % (self.arr, self.elem)
+
+
 class Tuple_:
     """Immutable python tuple of values (returned by functions)."""
     __slots__ = ("items",)
@@ -118,6 +130,8 @@ def to_z3(v, sort=None):
     """Lift a value to a z3 expression of the requested sort (None: natural sort)."""
     if isinstance(v, Ref):
         v = v.e
+    if isinstance(v, ArrVal):
+        return v.arr
     if isinstance(v, bool):
         if sort is None or sort == BoolS:
             return z3.BoolVal(v)
